@@ -1,5 +1,6 @@
 (* C17 — non-vacuity: concrete instances of the hypotheses of the theorems. *)
-From GL Require Import Common.Bytes Dbg.Lines Dbg.LinesFacts Dbg.Layout Dbg.LayoutFacts.
+From GL Require Import Common.Bytes Dbg.Lines Dbg.LinesFacts Dbg.Layout Dbg.LayoutFacts
+  Dbg.Scope Dbg.ScopeFacts Dbg.DbgLocals Dbg.DbgLocalsFacts.
 
 (* local x = [[a<CR><LF>b]] .. n   with a comment line and a blank CRLF line before `..` *)
 Definition ex_toks : list token :=
@@ -32,4 +33,33 @@ Example ex_spans_wf : spans_wf 0 (len (render ex_toks ex_lay)) [(0,5);(6,1);(8,1
 Proof. vm_compute. repeat split; intro H; discriminate H. Qed.
 
 Example ex_span_lines : span_lines (render ex_toks ex_lay) [(0,5);(6,1);(8,1);(11,8);(27,2);(30,1)] = [(1,1);(1,1);(1,1);(2,3);(5,5);(6,6)].
+Proof. reflexivity. Qed.
+
+(* statement entries of:  local x = [[..]] .. n  (one simple statement) inside nothing *)
+Example ex_innermost : innermost [(0, 5); (3, 4)] 4 None = Some (3, 4).
+Proof. reflexivity. Qed.
+
+(* a function with a parameter, a numeric for loop with a point in its limit expression, a
+   repeat whose condition sees the body's local, nested blocks and register reuse *)
+Definition ex_fn : fn :=
+  Fn true [("p"%string, Some 7)] true
+    (ILocal [("a"%string, Some 1)]
+      (INumFor [] [5] [] (Some 1) (Some 2) (Some 1) ("i"%string, Some 1)
+         (IPoint 2 (IRepeat (ILocal [("u"%string, Some 9)] (IBlock (ILocal [("z"%string, None)] INil) INil)) [3] INil))
+         (IBlock (ILocal [("c"%string, Some 3)] INil) (ILocal [("d"%string, Some 4)] (IPoint 4 INil))))).
+
+Example ex_scope_body : option_map (map fst) (locals_at ex_fn 2) =
+  Some ["self"; "p"; "arg"; "a"; "(for index)"; "(for limit)"; "(for step)"; "i"]%string.
+Proof. reflexivity. Qed.
+Example ex_scope_header : option_map (map fst) (locals_at ex_fn 5) = Some ["self"; "p"; "arg"; "a"]%string.
+Proof. reflexivity. Qed.
+Example ex_scope_until : option_map (map fst) (locals_at ex_fn 3) =
+  Some ["self"; "p"; "arg"; "a"; "(for index)"; "(for limit)"; "(for step)"; "i"; "u"]%string.
+Proof. reflexivity. Qed.
+Example ex_scope_reuse : locals_at ex_fn 4 =
+  Some [("self", None); ("p", Some 7); ("arg", None); ("a", Some 1); ("d", Some 4)]%string.
+Proof. reflexivity. Qed.
+Example ex_impl_agrees : map (dbg_locals_at ex_fn) [2; 3; 4; 5; 6] = map (locals_at ex_fn) [2; 3; 4; 5; 6].
+Proof. reflexivity. Qed.
+Example ex_setlocal : setlocal [("a", Some 1); ("d", Some 4)]%string 2 (Some 9) = (Some "d"%string, [("a", Some 1); ("d", Some 9)]%string).
 Proof. reflexivity. Qed.
